@@ -487,43 +487,24 @@ def rule_record_guard(ctx, crate, rule="R-EST-RECORD-GUARD"):
     if len(steps_p) != 1 or len(now_p) != 1:
         ctx.lost(rule, cfg, "Estimator::record parameters changed")
         return
-    rel_edges = {"prev_steps": [], "prev_time": []}       # field -> [(edge, set of possible relations new ? old)]
+    from . import c13 as F      # comparison-fact analysis (dominating edges, named flags, PartialOrd calls)
     TRUE_REL = {"Lt": {"<"}, "Le": {"<", "="}, "Gt": {">"}, "Ge": {">", "="}, "Eq": {"="}, "Ne": {"<", ">"}}
-    SWAP = {"Lt": "Gt", "Gt": "Lt", "Le": "Ge", "Ge": "Le", "Eq": "Eq", "Ne": "Ne"}
-    for sb, t in b.switches():
-        src = bool_source(b, t["op"])
-        if not src:
-            continue
-        tf = true_false_edges(b, sb, t)
-        if not tf:
-            continue
-        te, fe = tf
-        if src[2]:
-            te, fe = fe, te
-        if src[0] == "bin" and src[1]["op"] in TRUE_REL:
-            op, a, c = src[1]["op"], src_place(b, src[1]["a"]), src_place(b, src[1]["b"])
-        elif src[0] == "call" and src[1].matches(r"std::cmp::PartialOrd::(lt|le|gt|ge)", r"std::cmp::PartialEq::(eq|ne)") and len(src[1].args) == 2:
-            op = K.meth(src[1].path).capitalize()
-            a, c = src_place(b, src[1].args[0]), src_place(b, src[1].args[1])
-        else:
-            continue
-        for (pp, fld) in ((steps_p[0], "prev_steps"), (now_p[0], "prev_time")):
-            new = (pp, "[]")
-            isold = lambda p: p is not None and fld in p[1]
-            if a == new and isold(c):
-                rel = op
-            elif isold(a) and c == new:
-                rel = SWAP[op]
-            else:
-                continue
-            rel_edges[fld].append((te, TRUE_REL[rel]))
-            rel_edges[fld].append((fe, {"<", "=", ">"} - TRUE_REL[rel]))
+    FLIP = {"<": ">", ">": "<", "=": "="}
+
+    def is_new(r, pp):
+        return r == ("l", pp)
+
+    def is_old(r, fld):
+        return r is not None and r[0] == "p" and fld in r[-1]
 
     def advanced(fld, bb):
+        pp = steps_p[0] if fld == "prev_steps" else now_p[0]
         poss = {"<", "=", ">"}
-        for e, rs in rel_edges[fld]:
-            if b.edge_dominates(e, bb):
-                poss &= rs
+        for (op, a, c) in F.edge_facts(b, bb):
+            if is_new(a, pp) and is_old(c, fld):
+                poss &= TRUE_REL[op]
+            elif is_old(a, fld) and is_new(c, pp):
+                poss &= {FLIP[x] for x in TRUE_REL[op]}
         return poss == {">"}
     adv_steps = adv_time = None
     adt = crate.adts.get(EST)
